@@ -236,6 +236,15 @@ pub struct GSpec {
     pub nts: Vec<NtSpec>,
     /// declare `type Error = String;` in the extern block
     pub declare_error: bool,
+    /// name of the grammar parameter (default `cx`) and of its lifetime (default `cx`)
+    #[serde(default = "default_cx")]
+    pub cx_name: String,
+    #[serde(default = "default_cx")]
+    pub lt_name: String,
+}
+
+fn default_cx() -> String {
+    "cx".to_string()
 }
 
 // ------------------------------------------------------------------ printing
@@ -244,6 +253,17 @@ pub struct GSpec {
 pub struct PrintCfg {
     pub lalr: bool,
     pub ascent: bool,
+}
+
+/// Printing mode for conditional compilation (C15)
+#[derive(Clone, Debug, PartialEq, Eq, Hash)]
+pub enum CfgMode {
+    /// print `#[cfg(..)]` attributes as they are
+    Keep,
+    /// print the grammar with every item whose cfg is false under this
+    /// feature set deleted and all cfg attributes removed (action ids and
+    /// rendering names keep their original numbering)
+    Deleted(BTreeSet<String>),
 }
 
 impl PrintCfg {
@@ -347,7 +367,7 @@ impl GSpec {
     fn print_action(&self, ni: usize, ai: usize, alt: &AltSpec) -> String {
         match &alt.act {
             Act::Default => String::new(),
-            Act::UnitUser => format!(" => cx.unit({})", Self::action_id(ni, ai)),
+            Act::UnitUser => format!(" => {}.unit({})", self.cx_name, Self::action_id(ni, ai)),
             Act::UnitLit => " => ()".to_string(),
             Act::User { fallible, style } => {
                 let id = Self::action_id(ni, ai);
@@ -390,15 +410,26 @@ impl GSpec {
                 };
                 let pre: String = muts.iter().map(|m| format!("{m}.push('m'); ")).collect();
                 if pre.is_empty() {
-                    format!(" {arrow} {mac}!(cx, {id}, \"{name}\"; {args})")
+                    format!(" {arrow} {mac}!({cx}, {id}, \"{name}\"; {args})", cx = self.cx_name)
                 } else {
-                    format!(" {arrow} {{ {pre}{mac}!(cx, {id}, \"{name}\"; {args}) }}")
+                    format!(" {arrow} {{ {pre}{mac}!({cx}, {id}, \"{name}\"; {args}) }}", cx = self.cx_name)
                 }
             }
         }
     }
 
     pub fn print(&self, pc: PrintCfg) -> String {
+        self.print_mode(pc, &CfgMode::Keep)
+    }
+
+    pub fn print_mode(&self, pc: PrintCfg, mode: &CfgMode) -> String {
+        let keep = |preds: &[Pred]| -> bool {
+            match mode {
+                CfgMode::Keep => true,
+                CfgMode::Deleted(f) => preds.iter().all(|p| p.eval(f)),
+            }
+        };
+        let show_cfg = matches!(mode, CfgMode::Keep);
         let mut o = String::new();
         o.push_str("use crate::rt::*;\n");
         if pc.lalr {
@@ -407,7 +438,7 @@ impl GSpec {
         if pc.ascent {
             o.push_str("#[recursive_ascent]\n");
         }
-        o.push_str("grammar<'cx>(cx: &'cx Cx);\n\n");
+        o.push_str(&format!("grammar<'{lt}>({cx}: &'{lt} Cx);\n\n", lt = self.lt_name, cx = self.cx_name));
         if let Lexer::Extern { .. } = self.lexer {
             o.push_str("extern {\n");
             o.push_str(&format!("    type Location = {};\n", self.loc_ty_name()));
@@ -417,7 +448,12 @@ impl GSpec {
             o.push_str("    enum Tok {\n");
             for t in &self.terms {
                 if let Some(p) = &t.cfg {
-                    o.push_str(&format!("        #[cfg({})]\n", p.print()));
+                    if !keep(std::slice::from_ref(p)) {
+                        continue;
+                    }
+                    if show_cfg {
+                        o.push_str(&format!("        #[cfg({})]\n", p.print()));
+                    }
                 }
                 let variant = ["A", "B", "C", "D", "E", "F", "P", "Q"][t.kind as usize];
                 let pat = match t.kind {
@@ -430,8 +466,13 @@ impl GSpec {
             o.push_str("    }\n}\n\n");
         }
         for (ni, nt) in self.nts.iter().enumerate() {
+            if !keep(&nt.cfg) {
+                continue;
+            }
             for p in &nt.cfg {
-                o.push_str(&format!("#[cfg({})]\n", p.print()));
+                if show_cfg {
+                    o.push_str(&format!("#[cfg({})]\n", p.print()));
+                }
             }
             if nt.inline {
                 o.push_str("#[inline]\n");
@@ -448,8 +489,13 @@ impl GSpec {
             }
             o.push_str(" = {\n");
             for (ai, alt) in nt.alts.iter().enumerate() {
+                if !keep(&alt.cfg) {
+                    continue;
+                }
                 for p in &alt.cfg {
-                    o.push_str(&format!("    #[cfg({})]\n", p.print()));
+                    if show_cfg {
+                        o.push_str(&format!("    #[cfg({})]\n", p.print()));
+                    }
                 }
                 if let Some(l) = alt.prec {
                     o.push_str(&format!("    #[precedence(level=\"{l}\")]"));
